@@ -116,10 +116,8 @@ def overlap_vcs() -> List[core.VC]:
         wf, syms = scanvc.window_frame(w, {"status": "int", "time": "int"}, "time", f"sw_{mode}")
         ex2 = pyvc.Exec(consts=extract.module_constants(CA), name=f"{name}.{mode}")
         fv.install(ex2)
-        env2 = {marker_var: wf}
-        for k, v in env.items():
-            if isinstance(v, mc.MergedTable):
-                env2[k] = v
+        env2 = dict(env)
+        env2[marker_var] = wf
         pc2: List[Any] = []
         ret = None
         for stt in tail:
